@@ -317,7 +317,15 @@ func RecordStream(e *fw.Env, channels, blocks int) (*Stream, *Trace, error) {
 		nRecv := 1 + e.R.Intn(3)
 		for k := 0; k < nRecv; k++ {
 			var t run.Transfer
-			switch e.R.Intn(11) {
+			switch e.R.Intn(12) {
+			case 11: // a fee computation that fails midway (the sum overflows after entries were accumulated), amid ordinary fee transfers
+				rc := FeeRecipients(w)
+				half := pow2(255).String()
+				fl := []spec.Fee{{Recipient: rc[e.R.Intn(len(rc))], Amount: fmt.Sprint(1 + e.R.Intn(500))}, {Recipient: rc[e.R.Intn(len(rc))], Amount: half}, {Recipient: rc[e.R.Intn(len(rc))], Amount: half}}
+				if e.R.Intn(2) == 0 {
+					fl = fl[1:]
+				}
+				t = l.NewTransfer(e.R, world.USDC, big.NewInt(int64(1_000_000+e.R.Intn(1000))), &spec.Spec{HasFee: true, Fees: fl, Route: spec.Route{Kind: "internal", To: w.K("rcpt1").String()}})
 			case 10: // memos the codec may read in more than one way (both members of a oneof)
 				m := ambiguous[e.R.Intn(len(ambiguous))]
 				t = l.NewTransfer(e.R, m.Denom, big.NewInt(1_000_000), nil)
